@@ -274,6 +274,7 @@ Op gen_prng(Ctx &c, GPrng &g, int obj, bool erase_bias, bool sys_only) {
         if (r.chance(1, c.thorough ? 1500 : 4000)) { static const uint64_t BIGC[] = {65535, 65536, 65537, 1048575, 1048576, 1048577, 1100000}; o.a = BIGC[r.below(7)]; }   // length corners of the personalisation string
         if (o.a == 0 && r.chance(1, 2)) o.flags |= F_NOCUSTOM;
         if (g.system) o.os.push_back(os_script(c, true)); else o.del.push_back(delivery(c));
+        if (!g.system && (c.armed == C15 || c.armed == C16) && r.chance(1, 6)) { o.flags |= F_NESTED; o.c = r.below(NOBJ); }   // entropy drawn from another generator
         g.st = ST_LIVE; g.counter = 1; g.limit = 32; g.since = 0;
         break;
     }
